@@ -744,6 +744,8 @@ func runC05(c *Check) {
 	c.ruleConflictsAccumulatedForEveryInput("R17")
 	c.rulePopulatedBeforeRegistering("R18")
 	c.ruleConflictingConsultsEveryInput("R19")
+	c.ruleMergeReturnsOwnList("R20")
+	c.ruleProcessedTxRegistered("R21")
 
 	// ---- R7 lockset
 	c.lockset("R7", "state", "MemPool", "mutex", c.structFields("state", "MemPool", "mutex"), []string{"state"}, nil, 20)
